@@ -47,8 +47,8 @@ def floors(tier):
     f = {"groups": 300, "schedules": 5000, "schedules_exhaustive_groups": 100, "thread_runs": 100,
          "thread_validations": 5000, "thread_runs_20plus_switches": 50, "observed_switches": 2000,
          "distinct_interleaving_signatures": 50}
-    for k in ("refs", "remote", "regex", "format", "types", "same-schema-object", "verdicts", "dollar-schema", "decimal", "handed-on-store", "custom-scheme-root", "shared-handler-document"):
-        f["collision:" + k] = 25
+    for k in ("refs", "remote", "regex", "format", "types", "same-schema-object", "verdicts", "dollar-schema", "decimal", "handed-on-store", "custom-scheme-root", "shared-handler-document", "types-argument"):
+        f["collision:" + k] = 25 if k in ("refs", "regex", "same-schema-object", "verdicts", "handed-on-store", "custom-scheme-root") else 15
     return f
 
 
@@ -146,6 +146,15 @@ def make_member(rng, d, k, kinds, link=None):
         cls = validators.extend(cls, type_checker=cls.TYPE_CHECKER.redefine("string", is_thing))
         props["t1"] = {"type": "string"}
         props["t2"] = {"items": {"type": "string"}}
+    legacy_types = None
+    if "types-argument" in kinds:
+        # what one member asks for by name says nothing about the names it does not mention, and nothing about the others
+        menu = [{"array": (list, dict)}, {"number": (int, float, str)}, {"string": (str, int)}, {"integer": (int, float, str)},
+                {"object": (dict, list)}, {"null": (type(None), str)}, {"boolean": (bool, str)}, {"string": (str, list), "null": (type(None), int)}]
+        legacy_types = menu[(rng.randrange(len(menu)) + 3 * k) % len(menu)]
+        for j, tn in enumerate(["string", "number", "object", "array", "null", "integer", "boolean"]):
+            props["ty%d" % j] = {"type": tn}
+        props["ty7"] = {"items": {"type": ["null", "integer"]}, "maxItems": 1}
     names = list(props)
     rng.shuffle(names)
     S = {idk: R.ROOT_URL, "definitions": defs, "properties": {n: props[n] for n in names}, "additionalProperties": False}
@@ -189,6 +198,8 @@ def make_member(rng, d, k, kinds, link=None):
                 validators.validator_for(S)       # what jsonschema.validate(instance, S) does first
         if fc is not None:
             kw["format_checker"] = fc
+        if legacy_types is not None:
+            kw["types"] = legacy_types
         if store is not None or handlers:
             kw["resolver"] = RefResolver.from_schema(S, id_of=cls.ID_OF, store=dict(store or {}), handlers=handlers)
         return cls(S, **kw)
@@ -209,6 +220,9 @@ def group_plan(gseed):
     elif rng.random() < 0.15:
         # member 0's root id uses a scheme urllib has no table entry for (no references in these members)
         kinds = {"custom-scheme-root", "regex", "verdicts"}
+    elif rng.random() < 0.15:
+        # every member is built with a (deprecated, still public) types= argument of its own
+        kinds = {"types-argument", "verdicts"}
     return kinds, n
 
 
